@@ -149,7 +149,7 @@ def build_tree(rc, reroot):
     from swcgeom.core.tree_utils import redirect_tree
 
     spec = G.spec_from_recipe(rc)
-    tree = G.build(spec)
+    tree = G.build(spec, frozen_ok=True)
     if reroot is not None and len(spec["pid"]) > 2:
         v = 1 + int(reroot) % (len(spec["pid"]) - 1)
         tree = redirect_tree(tree, v, sort=False)  # the root is now stored at position v
@@ -245,7 +245,8 @@ def _exec(ctx, case):
                                  case)
         # the caller edits the first tree in place (node handle / column write) and transforms it
         # again: the stated map applies to the tree as it is *now*
-        if case.get("edit") and len(trees[0]) >= 2:
+        if case.get("edit") and len(trees[0]) >= 2 and all(
+                trees[0].ndata[k_].flags.writeable for k_ in "xyz"):
             tr = trees[0]
             for (pos, col, val, how) in case["edit"]:
                 pos = int(pos) % len(tr)
@@ -417,7 +418,7 @@ def run(ctx):
                 ctx.case(case, klass="builders")
                 execute(ctx, case)
                 continue
-            geoms = ["far", "far", "gauss", "growth", "int", "big", "quarter"]
+            geoms = ["far", "far", "plane", "gauss", "growth", "int", "big", "quarter"]
             rc = G.random_recipe(rng, max_n=G.size_ladder(ctx, k, 8, 40, 200), geoms=geoms)
             rc2 = G.random_recipe(rng, max_n=12, geoms=geoms)
             t = draw_transform(rng)
